@@ -172,7 +172,9 @@ def classify_loop(F, fn, an, header, body, bounded_types):
             v = an.simp(v, an.out_states[(s, header)].facts) if v is not None else None
             if not (v is not None and v.op == "proj" and v.args[0].op == "bin" and v.args[0].args[0] in ("AddWithOverflow",)
                     and v.args[0].args[1] is i and v.args[0].args[2].op == "const" and v.args[0].args[2].args[1] >= 1) \
-               and not (v is not None and v.op == "bin" and v.args[0] == "Add" and v.args[1] is i and v.args[2].op == "const" and v.args[2].args[1] >= 1):
+               and not (v is not None and v.op == "bin" and v.args[0] == "Add" and v.args[1] is i and v.args[2].op == "const" and v.args[2].args[1] >= 1) \
+               and not (v is not None and v.op == "payload" and v.args[1] == "Some" and v.args[0].op == "call" and v.args[0].args[0].endswith("::checked_add")
+                        and v.args[0].args[2][0] is i and v.args[0].args[2][1].op == "const" and v.args[0].args[2][1].args[1] >= 1):
                 inc_ok = False
         if inc_ok:
             return True, "counter loop: %s < %s, incremented on every path to the back edge" % (pp(i), pp(n)[:80])
